@@ -11,7 +11,7 @@ from __future__ import annotations
 import ast
 import re
 
-from ..model import AnalysisError
+from ..model import AnalysisError, dotted
 from ..pse import NORMAL, Cfg, Enumerator
 from ..reader import record_paths
 from ..rewrite import classify_rewrite
@@ -151,9 +151,21 @@ def generators(ctx, RA, RG, P) -> None:
                         c = classify_rewrite(src)
                         construct = f"{gname} {kind}-loop source"
                         if c["anchored"] is None:
-                            ctx.unresolved.append(f"{construct}: rewrite shape not recognised: {c['text'][:100]}")
-                            ctx.viol(RA, construct, f"source path computed by an unrecognised rewrite `{c['text'][:120]}` (not one of the enumerated prefix-anchored idioms)", yloc) if "replace" in c["text"] else None
-                            continue
+                            # a recognised rewrite passed through a function that re-spells paths is not "the old directory path
+                            # followed by the same relative path" any more (./a/x becomes a/x, case is folded, links are resolved)
+                            RESPELL = ("normpath", "abspath", "realpath", "normcase", "expanduser", "expandvars", "relpath", "lower", "upper", "casefold", "strip", "rstrip", "lstrip")
+                            core = src
+                            wrapper = None
+                            while isinstance(core, ast.Call) and (((dotted(core.func) or "").split(".")[-1] in RESPELL and core.args) or (isinstance(core.func, ast.Attribute) and core.func.attr in RESPELL)):
+                                wrapper = wrapper or (dotted(core.func) or ast.unparse(core.func))
+                                core = core.args[0] if (dotted(core.func) or "").split(".")[-1] in RESPELL and core.args and not (isinstance(core.func, ast.Attribute) and classify_rewrite(core.func.value)["anchored"] is not None) else core.func.value
+                            if wrapper is not None and classify_rewrite(core)["anchored"] is not None:
+                                ctx.viol(RA, construct, f"the rewritten source path is passed through `{wrapper}(...)`: it is re-spelled (e.g. `./a/x` becomes `a/x`) and no longer the old directory path as given followed by the same relative path", yloc)
+                                continue
+                            if "replace" in c["text"]:
+                                ctx.viol(RA, construct, f"source path computed by an unrecognised rewrite `{c['text'][:120]}` (not one of the enumerated prefix-anchored idioms)", yloc)
+                                continue
+                            raise AnalysisError(f"{construct}: the source path `{c['text'][:120]}` is computed in a way this rule does not know (known: slice by prefix length, replace(a, b, 1), removeprefix, relpath + join)")
                         good_dir = c["x"] == joined and c["a"] == walked and c["b"] == src_param
                         ctx.check(
                             c["anchored"] is True and good_dir,
